@@ -144,7 +144,8 @@ class Sym:
             fs = list(base[4])
             fs[e[1]] = self._upd(fs[e[1]], proj[1:], term)
             return base[:4] + (tuple(fs),) + base[5:]
-        return ("upd", base, str(e), self._upd(self.proj(base, e), proj[1:], term))
+        key = ("f", e[1]) if e[0] == "f" else str(e)
+        return ("upd", base, key, self._upd(self.proj(base, e), proj[1:], term))
 
     def _known_switch_value(self, d):
         if d[0] == "const" and isinstance(d[1], (int, bool)):
